@@ -41,6 +41,9 @@ SCHED_TEXT = {
     'C14': 'Unschedulable inputs are not pruned: hierarchy-closed cycles, outside predecessors with/without dates, fixed ends in the future, never-available and exhausted calendars, unnamed tasks, tasks without resource; outcome must be a schedule or exactly RuntimeError (RecursionError counted as crash), and the four enumerated causes must raise.',
 }
 
+CHECKS['C17'] = ('other', 'Calendar expression trees (depth <= 2/3) over + - * / | with symbolic capacities, validity bounds and query instant are evaluated by the real classes and compared with a reference evaluator written from the statement (one solver query per path); constructor validation decided for symbolic weekday/units/start/end; availability search with symbolic start time and horizon compared with the least-k reference, both directions.', '6 C17',
+                 'Bounded: tree depth, capacity range, query-day menu, horizon <= 10 (see evidence.coverage.bounds). datetime in pjplan.calendar/resource rebound to the symx model. Trusted: CPython, z3 (non-linear real arithmetic for products of two symbolic capacities), symx, the reference evaluator.')
+
 NOT_YET = {
 }
 
